@@ -77,6 +77,22 @@ func NormValue(rv reflect.Value) any {
 				out[t.Field(i).Name] = fmt.Sprint(f)
 				continue
 			}
+			if IsEmb(t.Field(i)) {
+				// the harness's own embedded structs: their fields are read where the schema sees them, as fields of this struct
+				// (behind a nil embedded pointer: their zero values)
+				e := f
+				if e.Kind() == reflect.Ptr {
+					if e.IsNil() {
+						e = reflect.Zero(e.Type().Elem())
+					} else {
+						e = e.Elem()
+					}
+				}
+				for k, v := range NormValue(e).(map[string]any) {
+					out[k] = v
+				}
+				continue
+			}
 			out[t.Field(i).Name] = NormValue(f)
 		}
 		return out
@@ -94,6 +110,55 @@ func NormValue(rv reflect.Value) any {
 		return rv.Interface()
 	}
 	return fmt.Sprint(rv)
+}
+
+// IsEmb recognises the embedded structs spec.Node.GoType declares (Embed != 0).
+func IsEmb(sf reflect.StructField) bool {
+	return sf.Anonymous && (sf.Name == "EmbA" || sf.Name == "EmbB")
+}
+
+// FieldAlloc is v.FieldByIndex(index) that allocates nil embedded pointers on the way.
+func FieldAlloc(v reflect.Value, index []int) reflect.Value {
+	for i, x := range index {
+		if i > 0 && v.Kind() == reflect.Ptr {
+			if v.IsNil() {
+				v.Set(reflect.New(v.Type().Elem()))
+			}
+			v = v.Elem()
+		}
+		v = v.Field(x)
+	}
+	return v
+}
+
+// AllocEmb allocates every nil embedded pointer (IsEmb) reachable from v through structs, pointers and slices: a value handed to
+// Validate has to have the fields its schema names.
+func AllocEmb(v reflect.Value) {
+	switch v.Kind() {
+	case reflect.Ptr:
+		if !v.IsNil() {
+			AllocEmb(v.Elem())
+		}
+	case reflect.Slice:
+		for i := 0; i < v.Len(); i++ {
+			AllocEmb(v.Index(i))
+		}
+	case reflect.Struct:
+		if v.Type() == timeType {
+			return
+		}
+		for i := 0; i < v.NumField(); i++ {
+			sf := v.Type().Field(i)
+			if !sf.IsExported() {
+				continue
+			}
+			f := v.Field(i)
+			if IsEmb(sf) && f.Kind() == reflect.Ptr && f.IsNil() && f.CanSet() {
+				f.Set(reflect.New(f.Type().Elem()))
+			}
+			AllocEmb(f)
+		}
+	}
 }
 
 // Make builds a reflect.Value of type t from a tree (the inverse of Norm for the shapes the harness uses).
@@ -142,11 +207,11 @@ func fill(dst reflect.Value, tree any) {
 			panic(fmt.Sprintf("obs.Make: tree %T for struct type %s", tree, dst.Type()))
 		}
 		for k, v := range m {
-			f := dst.FieldByName(k)
-			if !f.IsValid() {
+			sf, ok := dst.Type().FieldByName(k)
+			if !ok {
 				panic("obs.Make: no field " + k)
 			}
-			fill(f, v)
+			fill(FieldAlloc(dst, sf.Index), v)
 		}
 	default:
 		rv := reflect.ValueOf(tree)
